@@ -82,10 +82,10 @@ def step (line : String) : String :=
         let parts := iota n
         match key with
         | none =>
-          let rs := (RoundRobin.run ⟨0, 0⟩ parts calls).2
+          let rs := (RoundRobin.run (RoundRobin.fresh 0) parts calls).2
           answer (showList rs) (match parseInts impl with | some xs => rrHolds 1 parts xs | none => false)
         | some kb =>
-          let r := (hashBalance ⟨0, 0⟩ key parts).2
+          let r := (hashBalance (RoundRobin.fresh 0) key parts).2
           let want := Spec.saramaHash (fnv1a32 kb).toNat n
           answer (showList (List.replicate calls r))
             (match parseInts impl with | some xs => xs.all (· == want) && allIn xs parts | none => false)
@@ -159,22 +159,13 @@ def step (line : String) : String :=
     | ["rr", chunk, start, ps, calls] =>
       match chunk.toInt?, start.toNat?, parseInts ps, calls.toNat? with
       | some chunk, some start, some parts, some calls =>
-        let rs := (RoundRobin.run ⟨chunk, UInt32.ofNat start⟩ parts calls).2
+        -- the balancer was placed where `start` calls with this list leave it (test hook)
+        let rs := (RoundRobin.run (RoundRobin.placed chunk start parts.length) parts calls).2
         let ch := if chunk < 1 then 1 else chunk.toNat
-        -- the property: runs of ChunkSize, cycling in order, *continuing across the counter wrap*
+        -- the property: runs of ChunkSize, cycling in order, for every call number (also across 2^32, 2^63, 2^64)
         let holds := match parseInts impl with
           | some xs => xs.length == calls && parts.length > 0 &&
-              (xs.zipIdx.all fun (r, j) => parts[((start + j) / ch) % parts.length]? == some r) &&
-              (start + calls ≤ 4294967296 ||
-                -- across the wrap the ideal sequence must keep cycling: consecutive answers differ by
-                -- at most one step in the cycle and runs have length ChunkSize
-                (List.range (calls - 1)).all fun j =>
-                  let a := xs[j]?; let b := xs[j+1]?
-                  match a, b with
-                  | some a, some b =>
-                    let ia := parts.idxOf a; let ib := parts.idxOf b
-                    ia == ib || ib == (ia + 1) % parts.length
-                  | _, _ => false)
+              (xs.zipIdx.all fun (r, j) => parts[((start + j) / ch) % parts.length]? == some r)
           | none => false
         answer (showList rs) holds
       | _, _, _, _ => "bad-op"
@@ -193,7 +184,7 @@ def step (line : String) : String :=
       match chunk.toInt?, n.toNat?, total.toNat? with
       | some chunk, some n, some total =>
         let parts := iota n
-        let m := countsOf parts (RoundRobin.run ⟨chunk, 0⟩ parts total).2
+        let m := countsOf parts (RoundRobin.run (RoundRobin.fresh chunk) parts total).2
         answer m (impl == m)
       | _, _, _ => "bad-op"
     | ["lbconc", n, total, sz] =>
@@ -220,9 +211,9 @@ def step (line : String) : String :=
           | .error e => s!"err:{e} offered={offS none}"
           | .ok l =>
             let r : Option Int := match bal with
-              | "rr" | "default" => ((⟨0, 0⟩ : RoundRobin).balance l).2
+              | "rr" | "default" => ((RoundRobin.fresh 0).balance l).2
               | "lb" => ((⟨[]⟩ : LeastBytes).balance (kb.length + 1) l).2
-              | "hash" => (hashBalance ⟨0, 0⟩ (some kb) l).2
+              | "hash" => (hashBalance (RoundRobin.fresh 0) (some kb) l).2
               | "refhash" => refHashBalance Gen.refHashMask 0 (some kb) l
               | "crc32" => crc32Balance false 0 (some kb) l
               | "murmur2" => murmur2Balance c false 0 (some kb) l
